@@ -18,14 +18,14 @@ def vd (r : Res) : Bool := r.out == .ok
 
 /-! ### slices -/
 
-theorem slice_subset (a : Array Nat) (p q x : Nat) (hx : x ∈ slice a p q) : x ∈ a.toList := by
+theorem slice_subsetV (a : Array Nat) (p q x : Nat) (hx : x ∈ slice a p q) : x ∈ a.toList := by
   simp only [slice, Array.toList_extract, List.extract_eq_take_drop] at hx
   exact List.mem_of_mem_drop (List.mem_of_mem_take hx)
 
 theorem uok_slice {e : Enc} {a : Array Nat} (h : UOk e a.toList) (p q : Nat) : UOk e (slice a p q) :=
-  h.subset (fun x hx => slice_subset a p q x hx)
+  h.subset (fun x hx => slice_subsetV a p q x hx)
 
-theorem slice_append (a : Array Nat) (r : Nat) (hr : r ≤ a.size) :
+theorem slice_appendV (a : Array Nat) (r : Nat) (hr : r ≤ a.size) :
     ∀ k p q, p + k = q → q ≤ r → slice a p r = slice a p q ++ slice a q r := by
   intro k
   induction k with
@@ -41,7 +41,7 @@ theorem slice_append (a : Array Nat) (r : Nat) (hr : r ≤ a.size) :
 
 theorem slice_split (a : Array Nat) (p q r : Nat) (h1 : p ≤ q) (h2 : q ≤ r) (hr : r ≤ a.size) :
     slice a p r = slice a p q ++ slice a q r :=
-  slice_append a r hr (q - p) p q (by omega) h2
+  slice_appendV a r hr (q - p) p q (by omega) h2
 
 theorem slice_ne_nil (a : Array Nat) (p q : Nat) (h : p < q) (hq : q ≤ a.size) : slice a p q ≠ [] := by
   rw [slice_cons a p q h hq]; exact List.cons_ne_nil _ _
